@@ -82,6 +82,26 @@ def _():
             ('=>', [defT, T.Eclo_least(V, e, S, Tt), Select(T.Eclo(V, e, S), y)], Select(Tt, y))]
 
 
+def int_ind(P, lo=0):
+    """induction on an integer >= lo: P(lo) and (j >= lo and P(j)) => P(j+1)"""
+    j = fresh_z('j', z3.IntSort())
+    return [('base', [], P(z3.IntVal(lo))), ('step', [j >= lo, P(j)], P(j + 1))]
+
+
+@proof('tm', 'run-sticky')
+def _():
+    Tm = Const('Tm_', T.TMs); w = Const('w0_', Word); i = Const('i_', z3.IntSort())
+    hyp = And(0 <= i, T.tm_halting(Tm, T.run_q(Tm, w, i)))
+    return [(t, [hyp] + h, g) for (t, h, g) in int_ind(lambda k: Implies(i <= k, T.run_q(Tm, w, k) == T.run_q(Tm, w, i)))]
+
+
+@proof('tm', 'run-sticky-0')
+def _():
+    Tm = Const('Tm_', T.TMs); w = Const('w0_', Word); k = Const('k0_', z3.IntSort())
+    q0 = rec_get(SV(REC('TM'), Tm), 'q0').z
+    return [('inst', [T.run_q(Tm, w, 0) == q0, 0 <= k, T.tm_halting(Tm, q0)], T.run_q(Tm, w, k) == q0)]
+
+
 def prove_lemmas(theories, timeout=10):
     """-> list of (name, status, log); a lemma may use the def/lfp/assumed axioms of the selected theories and earlier lemmas"""
     from .smt import discharge
